@@ -864,6 +864,16 @@ func (env *Env) call(n *ast.CallExpr) *SVal {
 				return env.mkBool(c.Forall([]*Term{bv}, c.Implies(rng, body)))
 			}
 			return env.mkBool(c.Exists([]*Term{bv}, c.And(rng, body)))
+		case "cur":
+			// cur(x): the current value of the local variable or (reassigned) parameter x
+			if id, ok := n.Args[0].(*ast.Ident); ok && env.fr != nil {
+				if o, ok := env.info.Uses[id].(*types.Var); ok {
+					if v := env.local(o); v != nil {
+						return v
+					}
+				}
+			}
+			return env.tr(n.Args[0])
 		case "isnil":
 			v := env.tr(n.Args[0])
 			return env.mkBool(env.isNil(v))
